@@ -393,7 +393,9 @@ def explore_alignment(spec, acc):
 
 
 # ----------------------------------------------------------------------------- collections
-COLL_PARENTS = {"s1": "ACRMBDWS", "s2": "SWDBMRCA"}
+# names chosen to be confusable under pattern matching: "_" is a one-character wildcard of SQL LIKE, which is also case-insensitive
+N1, N2, N3 = "s_1", "sA1", "S_1"
+COLL_PARENTS = {N1: "ACRMBDWS", N2: "SWDBMRCA"}
 
 
 def explore_collection(spec, acc):
@@ -407,10 +409,10 @@ def explore_collection(spec, acc):
     new = impl == "new"
     parents = {n: p[:L] for n, p in COLL_PARENTS.items()}
     spans = [(s, e) for s in range(L) for e in range(s + 1, L + 1)]
-    hists = [[], [["take_seqs", ["s2", "s1"]]], [["take_seqs", ["s1"]]], [["take_seqs", ["s2"]]], [["degap"]], [["rc"]], [["rc"], ["degap"]],
-             [["take_seqs", ["s2", "s1"]], ["degap"]], [["degap"], ["take_seqs", ["s1"]]], [["rc"], ["rc"]]]
+    hists = [[], [["take_seqs", [N2, N1]]], [["take_seqs", [N1]]], [["take_seqs", [N2]]], [["degap"]], [["rc"]], [["rc"], ["degap"]],
+             [["take_seqs", [N2, N1]], ["degap"]], [["degap"], ["take_seqs", [N1]]], [["rc"], ["rc"]]]
     for (s, e), strand, other in itertools.product(spans, "+-", spans[:: max(1, len(spans) // 3)]):
-        feats = {"s1": {"spans": [(s, e)], "strand": strand}, "s2": {"spans": [other], "strand": "-" if strand == "+" else "+"}}
+        feats = {N1: {"spans": [(s, e)], "strand": strand}, N2: {"spans": [other], "strand": "-" if strand == "+" else "+"}}
         for hist in hists:
             case = {"coll": impl, "L": L, "attach": attach, "features": {k: {"spans": [list(x) for x in v["spans"]], "strand": v["strand"]} for k, v in feats.items()}, "history": hist}
             acc.case(None)
@@ -423,14 +425,14 @@ def explore_collection(spec, acc):
                     db = BasicAnnotationDb()
                     for n, f in feats.items():
                         db.add_feature(seqid=n, biotype="gene", name=f"f_{n}", spans=[list(x) for x in f["spans"]], strand=f["strand"])
-                    db.add_feature(seqid="s3", biotype="gene", name="f_s3", spans=[(0, 1)], strand="+")
+                    db.add_feature(seqid=N3, biotype="gene", name="f_foreign", spans=[(0, 1)], strand="+")
                     if new:
                         coll = make_unaligned_seqs(parents, moltype="dna", new_type=True, annotation_db=db)
                     else:
                         coll = make_unaligned_seqs(parents, moltype="dna")
                         coll.annotation_db = db
                 cur = coll
-                names = ["s1", "s2"]
+                names = [N1, N2]
                 dropped = False
                 for op in hist:
                     if op[0] == "take_seqs":
@@ -446,7 +448,7 @@ def explore_collection(spec, acc):
                 acc.fail(f"collection history raised {type(ex).__name__} [{impl} collection; {' > '.join(o[0] for o in hist) or 'no operation'}]", case, {"error": str(ex)[:200]})
                 continue
             hkind = " > ".join(o[0] for o in hist) or "no operation"
-            for seqid in (None, "s1", "s2"):
+            for seqid in (None, N1, N2):
                 if seqid is not None and seqid not in names:
                     continue
                 kw = {"biotype": "gene", "allow_partial": True}
